@@ -15,7 +15,7 @@ def run(r):
     th = r.tier == "thorough"
     # WSX: bytes that look like whitespace but are not the reader's (VT, CR alone, NEL / NBSP as C2 85 / C2 A0) next to the four that are
     WSX = [32, 9, 12, 11, 13, 97]   # (no LF next to CR: the model's content is the normalised one)
-    plans = [(3, ALPHA, [1, 2, 9], "len3"), (3, WSX, [4], "wsx"), (3 if not th else 4, [194, 133, 160, 32, 97], [1], "nbsp")] + ([(4, ALPHA, [1, 7], "len4"), (5, [97, 95, 32, 10, 195, 169], [3], "len5")] if th else [(4, [97, 95, 32, 195, 169], [5], "len4s")])
+    plans = [(3, ALPHA, [1, 2, 9], "len3"), (3, WSX, [4], "wsx"), (3 if not th else 4, [194, 133, 160, 32, 97, 233], [1], "nbsp")] + ([(4, ALPHA, [1, 7], "len4"), (5, [97, 95, 32, 10, 195, 169], [3], "len5")] if th else [(4, [97, 95, 32, 195, 169], [5], "len4s")])
     res = []
     for (ml, al, bases, tag) in plans:
         res.append(pure.model_to_code(r, "ReaderMC", cfg(ml, al, bases, True), "reader", tag))
